@@ -1,7 +1,7 @@
 // C14: every xDS snapshot sent to a proxy is closed and well-formed.
 //
 // Space: base configuration + every subset of size <= 2 of the collision alphabet (quick), plus every
-// subset of size 3 (thorough: of the whole alphabet when VERIF_C14_TRIPLES=all, else of the core),
+// subset of size 3 (thorough; VERIF_C14_TRIPLES=core restricts the triples to the core objects),
 // times the proxies. Per case the REAL istio code builds an environment and the four xDS answers per
 // proxy (gen_test.go); the oracle of checks_test.go decides. A finding is attributed to the smallest
 // sub-case that shows it (base, one object, two objects, three) and reported once there.
@@ -216,7 +216,7 @@ func specsFor(thorough bool) []proxySpec {
 func TestC14(t *testing.T) {
 	env := engine.GetEnv()
 	res := engine.NewResult("C14", "snapshots")
-	res.Rule = "base configuration (a platform service with the sidecar as endpoint, a ServiceEntry, a Gateway, a VirtualService) + every subset of size <= 2 of the collision alphabet (thorough: + every subset of size 3 of the core, or of the whole alphabet with VERIF_C14_TRIPLES=all) x proxies (quick: sidecar, router; thorough: + sidecar with interception NONE, dual-stack router, waypoint); per case one real environment (core.NewConfigGenTest, unvalidated objects as the CRD client delivers them) and per proxy the real CDS, LDS, RDS (for every route name LDS references) and EDS (for every EDS cluster) generators with panics recovered; non-trivial = the snapshot of some proxy differs from the snapshot of the base alone and of every single object of the case alone (the objects interact or at least both matter)"
+	res.Rule = "base configuration (a platform service with the sidecar as endpoint, a ServiceEntry, a Gateway, a VirtualService) + every subset of size <= 2 of the collision alphabet (thorough: + every subset of size 3) x proxies (quick: sidecar, router; thorough: + sidecar with interception NONE, dual-stack router, waypoint); per case one real environment (core.NewConfigGenTest, unvalidated objects as the CRD client delivers them) and per proxy the real CDS, LDS, RDS (for every route name LDS references) and EDS (for every EDS cluster) generators with panics recovered; non-trivial = the snapshot of some proxy differs from the snapshot of the base alone and of every single object of the case alone (the objects interact or at least both matter)"
 	defer res.Write(t, env)
 
 	r := &runner{res: res, specs: specsFor(env.Thorough()), cache: map[string]*caseResult{}}
@@ -297,12 +297,12 @@ func TestC14(t *testing.T) {
 			core = append(core, i)
 		}
 	}
-	tripleSet := core
-	if os.Getenv("VERIF_C14_TRIPLES") == "all" {
-		tripleSet = nil
-		for i := range alphabet {
-			tripleSet = append(tripleSet, i)
-		}
+	var tripleSet []int
+	for i := range alphabet {
+		tripleSet = append(tripleSet, i)
+	}
+	if os.Getenv("VERIF_C14_TRIPLES") == "core" {
+		tripleSet = core
 	}
 	res.Bounds["alphabet"] = n
 	res.Bounds["alphabet_rejected_by_admission"] = rejectedNames
